@@ -12,7 +12,8 @@ from .ref import canon
 class Recorder:
     """records every action invocation; `transform(rule, ast, n)` decides the returned value"""
 
-    def __init__(self, transform=None, record=True):
+    def __init__(self, transform=None, record=True, tag_params=False):
+        self.__dict__['tag_params'] = tag_params
         self.__dict__['events'] = []
         self.__dict__['ctx'] = None
         self.__dict__['transform'] = transform
@@ -45,6 +46,9 @@ class Recorder:
             t = d['transform']
             if t is None:
                 return ast
+            if d['tag_params']:
+                # the parameters the action received are part of what the back-ends must agree on
+                return (*t(name, ast, d['calls']), list(params), sorted(kwparams.items()))
             return t(name, ast, d['calls'])
 
         action.__name__ = name
@@ -62,4 +66,6 @@ def make_semantics(name):
         return Recorder(record=False)
     if name == 'tagging':
         return Recorder(transform=tagging, record=False)
+    if name == 'tagging+params':
+        return Recorder(transform=tagging, record=False, tag_params=True)
     raise ValueError(name)
